@@ -24,7 +24,8 @@ RULE = (
     "and entry-point parameters are pairwise disjoint; (d) bind(n) removes n from required and bind(n).unbind(n) restores the "
     "specification exactly; (e) for gate-free DAGs the specification equals an independent reference classification under "
     "bind/select/entry points; (f) a run-time select=S demands exactly what graph.select(*S) reports, also on graphs derived by "
-    "bind/unbind after the parent ran with the same select. Non-trivial = >=2 of {binding, selection, entry point, nesting} and >=2 "
+    "bind/unbind after the parent ran with the same select; (g) two ORDERED producers of one name (by a data edge or a signal), "
+    "listed in any order: selecting the name keeps both producers and their inputs in scope. Non-trivial = >=2 of {binding, selection, entry point, nesting} and >=2 "
     "required inputs (or an entry-point choice)."
 )
 ASSUMPTIONS = [
@@ -35,7 +36,7 @@ ASSUMPTIONS = [
 
 @st.composite
 def _case(draw, tier):
-    kind = draw(st.sampled_from(["g1", "g1r", "g1r", "g2", "g2", "loop", "nested", "nestscope", "twocycles"]))
+    kind = draw(st.sampled_from(["g1", "g1r", "g1r", "g2", "g2", "loop", "nested", "nestscope", "twocycles", "ordprod"]))
     c = {"kind": kind}
     if kind == "g1":
         topo = draw(gen.g1_nodes(2, 7))
@@ -45,6 +46,38 @@ def _case(draw, tier):
             if earlier and prob(draw, 0.2):
                 topo[j]["wait_for"] = [draw(st.sampled_from(earlier))]
         c["nodes"] = draw(gen.permuted(topo))
+    elif kind == "ordprod":
+        # two ORDERED producers of one name: A -> (v, ow) and B(ow | wait_for A's signal, own input) -> v.  Selecting v keeps both in
+        # scope whatever order they are listed in (selections further downstream of v are left out: open finding F9 makes the
+        # consumer's producer depend on the listing order)
+        topo = draw(gen.g1_nodes(2, 5, default_on_edge=0.0))
+        cands = [i for i, x in enumerate(topo) if x["outs"]]
+        if not cands:
+            topo[0]["outs"] = ["o_forced"]
+            cands = [0]
+        a = draw(st.sampled_from(cands))
+        A = topo[a]
+        v = draw(st.sampled_from(A["outs"]))
+        B = {"k": "func", "name": "opB", "params": [], "defaults": {}, "outs": [v]}
+        how = draw(st.sampled_from(["data", "data", "signal"]))
+        if how == "data":
+            A["outs"] = A["outs"] + ["ow"]
+            B["params"].append("ow")
+        else:
+            A["emit"] = ["osig"]
+            B["wait_for"] = ["osig"]
+        if prob(draw, 0.8):
+            B["params"].append("os")
+        if prob(draw, 0.3):
+            B["params"].append("os2")
+            B["defaults"]["os2"] = ["dflt", "os2"]
+        if prob(draw, 0.3):
+            B["outs"] = B["outs"] + ["ob"]
+        down = ref.descendants(topo, {x["name"] for x in topo if v in x["params"]})
+        others = [o for x in topo if x["name"] not in down for o in x["outs"] if o != v]
+        sel = [v] + ([draw(st.sampled_from(others))] if others and prob(draw, 0.3) else [])
+        c["nodes"] = draw(gen.permuted(topo + [B]))
+        c["op"] = {"v": v, "A": A["name"], "how": how, "sel": list(draw(st.permutations(sel)))}
     elif kind == "g1r":
         # node objects are first used in a graph, then renamed by a bijection (swaps included) and used in a second graph
         topo = draw(gen.g1_nodes(2, 6))
@@ -330,6 +363,13 @@ def check_case(case, ev):
             g = g.unbind(*ub)
             labels.add("unbind")
     sel = None
+    if kind == "ordprod":
+        case = {**case, "select": None, "entry": None}
+        sel = list(case["op"]["sel"])
+        g = g.select(*sel)
+        nfeat += 1
+        labels.update({"select", "ordered_producers:" + case["op"]["how"],
+                       "later_producer_listed_first" if [x["name"] for x in case["nodes"]].index("opB") < [x["name"] for x in case["nodes"]].index(case["op"]["A"]) else "natural_listing"})
     if case["select"] is not None and g.outputs:
         outs = list(g.outputs)
         sel = list(dict.fromkeys(outs[i % len(outs)] for i in case["select"]))
@@ -361,6 +401,15 @@ def check_case(case, ev):
     if len(sp.required) != len(req) or len(sp.optional) != len(opt):
         raise Violation("c08.duplicates", f"required={sp.required} optional={sp.optional}")
     # ---- (e) reference classification for gate-free DAGs
+    if kind == "ordprod":
+        # reference: the later producer under a private output name (so producers are unique), in scope together with the earlier one
+        v = case["op"]["v"]
+        ref_nodes = [({**x, "outs": [("__second_" + o if o == v else o) for o in x["outs"]]} if x["name"] == "opB" else x) for x in case["nodes"]]
+        r_req, r_opt, r_active = ref.input_spec(ref_nodes, {n: 1 for n in sp.bound}, sel + ["__second_" + v], None, ordering=True)
+        if r_req != req or r_opt != opt or sp.entrypoints:
+            raise Violation("c08.reference_spec", f"two ordered producers of {v!r} ({case['op']['A']} then opB, listed {[x['name'] for x in case['nodes']]}), select={sel}: reported required={sorted(req)} "
+                            f"optional={sorted(opt)}; both producers and what they need are in scope: required={sorted(r_req)} optional={sorted(r_opt)}",
+                            what="required" if r_req != req else "optional", ordered_producers=True)
     if kind in ("g1", "nestscope"):
         bound_now = {n: 1 for n in sp.bound}
         ref_nodes = case["nodes"]
@@ -429,6 +478,8 @@ def check_case(case, ev):
     if g.outputs and kind != "loop":
         outs = list(g.outputs)
         S = list(dict.fromkeys(outs[i % len(outs)] for i in case["rt_select"]))
+        if kind == "ordprod":
+            S = list(sel)
         gs = g.select(*S)
         v2, kw2, ok2 = _check_sufficiency_rt(g, gs, S, ctx, case["ep_pick"], ev)
         if ok2:
